@@ -398,6 +398,8 @@ class Engine(Interp):
             else:
                 ty = self.reg.type(ts)
             v = ty.fresh(self.ctx, f"{n}_l{k}")
+            if getattr(env.get(n), "fresh", False) and hasattr(v, "fresh"):
+                v.fresh = True          # an array allocated before the loop is still this activation's own array
             env[n] = v
             if v is not None:
                 self.ctx.assume(ty.invariant(v))
@@ -443,6 +445,10 @@ class Engine(Interp):
             fr = Frame(q, fnode, modname, clsq, c, globs)
             self.frame = fr
             self.depth = 0
+            self.ghost = {}
+            self.global_cache = {}
+            self._fresh_ids = set()
+            self._fresh_keep = []
             self.ctx.cur_tags = tuple(c.tags)
             self.ctx.want_exc = 1 if any(v is not None for v in c.raises.values()) or c.raises_ensures else 0
             env = fr.env
@@ -461,8 +467,15 @@ class Engine(Interp):
                 pnames = pnames[1:]
             if False:
                 pass
+            pos_defaults = dict(zip([a.arg for a in args.args][len(args.args) - len(args.defaults):], args.defaults))
+            kw_defaults = {a.arg: d for a, d in zip(args.kwonlyargs, args.kw_defaults) if d is not None}
             for p in pnames + [a.arg for a in args.kwonlyargs]:
                 ts = c.params.get(p)
+                if ts is None and (p in pos_defaults or p in kw_defaults):
+                    # an undeclared parameter with a default: verified as called without it (the default object,
+                    # which Python shares between calls, is not fresh)
+                    env[p] = self.const_default(pos_defaults.get(p, kw_defaults.get(p)))
+                    continue
                 if ts is None:
                     raise Unsupported(f"{q}: parameter '{p}' has no declared type")
                 ty = self.reg.type(ts)
@@ -763,7 +776,45 @@ def _m_callable(I, args, kwargs, node):
     raise Unsupported("callable() of a symbolic value")
 
 
+def _m_set(I, args, kwargs, node):
+    from .pandas_m import m_set
+    return m_set(I, args, kwargs, node)
+
+
+def _m_is_fresh(I, args, kwargs, node):
+    """Specification builtin: the container was created by a literal / comprehension in this activation
+    (a default-argument object is shared between calls and therefore never fresh)."""
+    v = args[0]
+    if isinstance(v, (list, dict)):
+        return id(v) in I.fresh_ids
+    return bool(getattr(v, "fresh", False))
+
+
+def _m_sum(I, args, kwargs, node):
+    v = args[0]
+    h = getattr(v, "pysum", None)
+    if h is not None:
+        return h(I)
+    if isinstance(v, (list, tuple)):
+        tot = 0
+        for x in v:
+            tot = arith("+", tot, x)
+        return tot
+    raise Unsupported(f"sum() of {v!r}")
+
+
+def _m_sorted(I, args, kwargs, node):
+    v = args[0]
+    if isinstance(v, (list, tuple)) and not any(is_sym(x) for x in v):
+        return sorted(v)
+    hook = getattr(I.reg, "sorted_model", None)
+    if hook is not None:
+        return hook(I, v, node)
+    raise Unsupported("sorted() of a symbolic sequence")
+
+
 Engine.builtin_models = {
+    set: _m_set, sum: _m_sum, sorted: _m_sorted,
     len: _m_len, isinstance: _m_isinstance, range: _m_range, list: _m_list, tuple: _m_tuple,
     str: _m_str, enumerate: _m_enumerate, zip: _m_zip, hasattr: _m_hasattr, getattr: _m_getattr,
     setattr: _m_setattr, all: _m_all, any: _m_any, type: _m_type, slice: _m_slice,
